@@ -916,7 +916,7 @@ def simp(t):
 ESCAPED = ('escaped', ())
 
 NONE_T = ('variant', 'core::option::Option', 0, 'None', (), 0)
-OPTION_INLINED = ('map', 'and_then', 'map_or', 'map_or_else', 'unwrap_or_else', 'unwrap_or')
+OPTION_INLINED = ('map', 'and_then', 'map_or', 'map_or_else', 'unwrap_or_else', 'unwrap_or', 'zip')
 
 
 def some_t(x):
@@ -1203,6 +1203,11 @@ class Walker:
             return None
         opt = args[0]
         payload = simp(('field', simp(('downcast', opt, 1, 'Some')), 0, '0'))
+        if name == 'zip' and len(args) == 2:
+            # Some((a, b)) exactly when both are Some
+            p2 = simp(('field', simp(('downcast', args[1], 1, 'Some')), 0, '0'))
+            d2 = simp(('discr', args[1]))
+            return [(0, [], [], NONE_T), (1, [(d2, 0)], [], NONE_T), (1, [(d2, 1)], [], some_t(('tuple', (payload, p2))))]
         if name == 'unwrap_or' and len(args) == 2:
             return [(0, [], [], args[1]), (1, [], [], payload)]
         if name == 'unwrap_or_else' and len(args) == 2:
@@ -1380,6 +1385,21 @@ class Walker:
                         if not feas:
                             return
                         self.universe[d] = frozenset((0, 1))
+                        def cs_feasible(cs, kmap):
+                            for cv in cs:
+                                if is_const(cv[0]):
+                                    if isinstance(cv[1], int) and cv[0][1] != cv[1]:
+                                        return False
+                                    continue
+                                k0 = kmap.get(cv[0])
+                                if isinstance(k0, int) and isinstance(cv[1], int) and k0 != cv[1]:
+                                    return False
+                                if isinstance(k0, frozenset) and cv[1] in k0:
+                                    return False
+                            return True
+                        feas = [a for a in feas if cs_feasible(a[1], known)]
+                        if not feas:
+                            return
                         for i, (dv, cs, es, r) in enumerate(feas):
                             last = i == len(feas) - 1
                             if last:
@@ -1393,7 +1413,14 @@ class Walker:
                             if not isinstance(kn, int):
                                 p2.conds = p2.conds + [(d, dv)]
                                 k2[d] = dv
-                            p2.conds = p2.conds + [cv for cv in cs if not (is_const(cv[0]))]
+                            for cv in cs:
+                                if is_const(cv[0]) or isinstance(k2.get(cv[0]), int):
+                                    continue
+                                p2.conds = p2.conds + [cv]
+                                if isinstance(cv[1], int):
+                                    k2[cv[0]] = cv[1]
+                                    if cv[0][0] == 'discr':
+                                        self.universe.setdefault(cv[0], frozenset((0, 1)))
                             p2.events = p2.events + [('call', bb) + e[2:] for e in es]
                             self.write_key(e2, pkey(t['dest']), r)
                             if not last:
